@@ -2,26 +2,26 @@
 
 # (engine, quick runs, thorough runs, engine options)
 PLAN = {
-    "C01": [("A", 12000, 1500000, {}), ("B", 800, 60000, {})],
-    "C02": [("A", 12000, 1500000, {})],
-    "C04": [("A", 12000, 1500000, {})],
-    "C05": [("A", 10000, 1000000, {})],
-    "C06": [("A", 12000, 1500000, {}), ("B", 800, 60000, {})],
-    "C07": [("A", 6000, 600000, {})],
-    "C11": [("A", 8000, 800000, {})],
-    "C18": [("A", 6000, 500000, {}), ("B", 1000, 80000, {})],
-    "C03": [("B", 1500, 120000, {})],
-    "C08": [("B", 1200, 100000, {})],
-    "C09": [("B", 1500, 120000, {})],
-    "C10": [("B", 1500, 120000, {})],
-    "C15": [("B", 1200, 100000, {})],
-    "C16": [("B", 1000, 80000, {})],
-    "C17": [("B", 1200, 100000, {})],
-    "C12": [("BELT", 6000, 600000, {})],
-    "C13": [("BELT", 6000, 600000, {})],
-    "C14": [("A", 8000, 600000, {})],
-    "C19": [("B", 600, 20000, {"c19": True, "keep_digests": True})],
-    "C20": [("B", 2500, 150000, {"wide": True, "invalid": 0.3}), ("A", 4000, 300000, {"kinds": ["fls", "flt", "cconv", "sconv", "buf"]})],
+    "C01": [("A", 40000, 3000000, {}), ("B", 2000, 200000, {})],
+    "C02": [("A", 40000, 3000000, {})],
+    "C03": [("B", 4000, 400000, {})],
+    "C04": [("A", 40000, 3000000, {})],
+    "C05": [("A", 40000, 3000000, {})],
+    "C06": [("A", 40000, 3000000, {}), ("B", 2000, 200000, {})],
+    "C07": [("A", 20000, 1500000, {})],
+    "C08": [("B", 4000, 400000, {})],
+    "C09": [("B", 4000, 400000, {})],
+    "C10": [("B", 4000, 400000, {})],
+    "C11": [("A", 30000, 2500000, {})],
+    "C12": [("BELT", 30000, 3000000, {})],
+    "C13": [("BELT", 30000, 3000000, {})],
+    "C14": [("A", 30000, 3000000, {})],
+    "C15": [("B", 4000, 400000, {})],
+    "C16": [("B", 4000, 400000, {})],
+    "C17": [("B", 4000, 400000, {})],
+    "C18": [("A", 20000, 2000000, {}), ("B", 2500, 250000, {})],
+    "C19": [("B", 800, 20000, {"c19": True, "keep_digests": True})],
+    "C20": [("B", 6000, 500000, {"wide": True, "invalid": 0.3}), ("A", 10000, 1000000, {"kinds": ["fls", "flt", "cconv", "sconv", "buf"]})],
 }
 
 THOROUGH_BUDGET_S = 900
